@@ -9,6 +9,8 @@ use std::time::Duration;
 
 #[path = "c03_ref.rs"]
 mod refs;
+#[path = "mvn_covs.rs"]
+mod mvn_covs;
 use refs::*;
 
 // ------------------------------------------------------------------------------------------------------------
@@ -471,6 +473,28 @@ pub fn gen(tier: &str, seed: u64, outdir: &str) {
             let one = m.sample().to_vec(); let s = m.sample_n(nn); let mut v = one; v.push(s.nrows as f64); v.push(s.ncols as f64); v.extend(s.data().iter()); v });
         cs.push(app("CMvn", vec![libm_table(&t), fl(&mu), fl(&lfac), Tm::Nat(dim as u64), Tm::N(sd), Tm::Nat(nn as u64), e]), if mu.len() != dim { "mvn/malformed" } else { "mvn" }, dim >= 2);
     }
+    // MVN END TO END: nothing recorded but libm; the Coq side computes the Cholesky factor (and the inverse and determinant the
+    // constructor also caches) with the models of C11 / C01.  Own generator state: the cases above and below do not move.
+    {
+        let mut r = Rng::new(seed ^ 0x9C03_E2E);
+        let dims: Vec<usize> = if thorough { (1..=12).collect() } else { (1..=6).collect() };
+        let reps = if thorough { 4 } else { 2 };
+        // the symmetric positive definite kinds (0..=5 and 16) are drawn three times as often as the others
+        let kinds: Vec<usize> = (0..mvn_covs::KINDS + 1).chain((0..=5).chain(16..17)).chain((0..=5).chain(16..17)).collect();
+        for rep in 0..reps { for &dim in &dims { for &kind in &kinds {
+            // kind KINDS: a valid covariance with a mean of the wrong length
+            let cv = mvn_covs::covariance(&mut r, dim, if kind >= mvn_covs::KINDS { 0 } else { kind });
+            let nmu = if kind == mvn_covs::KINDS { if r.coin(0.5) { dim + 1 } else { dim - 1 } } else { dim };
+            let mu: Vec<f64> = (0..nmu).map(|_| r.uniform(-5.0, 5.0)).collect();
+            let nn = ((rep + dim + kind) % 4) as usize; let sd = r.next();
+            let (mu2, cov2, rows, cols) = (mu.clone(), cv.data.clone(), cv.rows, cv.cols);
+            let (t, e, _) = run_case(move || { alea::set_seed(sd); let m = MVN::new(Vector::new(mu2), Matrix::new(cov2, rows as i32, cols as i32));
+                let one = m.sample().to_vec(); let s = m.sample_n(nn); let mut v = one; v.push(s.nrows as f64); v.push(s.ncols as f64); v.extend(s.data().iter()); v });
+            let tag = if kind == mvn_covs::KINDS { "rejected/mean-of-wrong-length" } else { cv.tag };
+            cs.push(app("CMvnE", vec![libm_table(&t), Tm::Nat(rows as u64), Tm::Nat(cols as u64), fl(&cv.data), fl(&mu), Tm::N(sd), Tm::Nat(nn as u64), e]),
+                &format!("mvn-end-to-end/{}", tag), cv.spd && kind < mvn_covs::KINDS && dim >= 2);
+        } } }
+    }
     // ln_gamma (added next to gamma for the Poisson sampler)
     let mut xs: Vec<f64> = (1..=60).map(|i| i as f64).collect();
     for _ in 0..150 * k { xs.push((r.uniform((0.5f64).ln(), (1e7f64).ln())).exp()); }
@@ -480,5 +504,5 @@ pub fn gen(tier: &str, seed: u64, outdir: &str) {
         libm::start(); let res = catch(|| compute::functions::ln_gamma(x)); let t = libm::stop();
         cs.push(app("CLnGamma", vec![libm_table(&t), Tm::F(x), outcome_list(&res.map(|v| vec![v]))]), if x < 0.5 { "ln_gamma/reflection" } else { "ln_gamma/direct" }, x != 1.0 && x != 2.0);
     }
-    cs.write(outdir, 120, "after alea::set_seed(seed): the first k draws (k = 0..8) of every distribution over the oracle's regime grid and over random parameters in every algorithm branch (gamma shape < 1/3, < 1, >= 1 and beta / chi-squared / t built on it; Poisson multiplication / PTRS / PTRS beyond 150; binomial inversion / BTPE / flipped / degenerate / n >= 2^31; ziggurat fast path, wedge and tail as the seeds reach them), the two seeds that make the first uniform variate exactly 0, seeds 0, 1, 2, 2^64-1, seeds whose first variate exceeds the summed binomial mass (loop bound x < n), invalid parameters (constructor panics), sample_matrix shapes 0..4 x 0..4, MVN sample and sample_n for dimensions 1..5 (Cholesky factor recorded from the crate's own routine), ln_gamma on integers, log-uniform (0.5, 1e7), the reflection branch and specials; every case carries the libm calls made (exp, ln, log1p, pow, floor, sin); non-trivial = at least two draws (the generator state is threaded through) or dimension >= 2; distinct by hash of the case term");
+    cs.write(outdir, 120, "after alea::set_seed(seed): the first k draws (k = 0..8) of every distribution over the oracle's regime grid and over random parameters in every algorithm branch (gamma shape < 1/3, < 1, >= 1 and beta / chi-squared / t built on it; Poisson multiplication / PTRS / PTRS beyond 150; binomial inversion / BTPE / flipped / degenerate / n >= 2^31; ziggurat fast path, wedge and tail as the seeds reach them), the two seeds that make the first uniform variate exactly 0, seeds 0, 1, 2, 2^64-1, seeds whose first variate exceeds the summed binomial mass (loop bound x < n), invalid parameters (constructor panics), sample_matrix shapes 0..4 x 0..4, MVN sample and sample_n for dimensions 1..5 (Cholesky factor recorded from the crate's own routine), MVN END TO END (MVN::new + sample + sample_n, the Cholesky factor computed by C11's model, nothing recorded but libm) for dimensions 1..6 (thorough: 1..12) on random / diagonal / small-integer / ill-conditioned (badly scaled, Hilbert, nearly singular, equicorrelated) SPD covariances, covariances symmetric only within / just outside the relative tolerance, and rejected inputs (non-positive diagonal, not symmetric, indefinite, singular, NaN / inf entry, not square, zero, mean of the wrong length), ln_gamma on integers, log-uniform (0.5, 1e7), the reflection branch and specials; every case carries the libm calls made (exp, ln, log1p, pow, floor, sin); non-trivial = at least two draws (the generator state is threaded through) or dimension >= 2; distinct by hash of the case term");
 }
